@@ -6,7 +6,7 @@ import jax.numpy as jnp
 
 def save_exp(x, max_value: float = 20.0):
     """Clip the input to a maximum value and return its exponential."""
-    x = jnp.clip(x, a_max=max_value)
+    x = jnp.clip(x, max=max_value)
     return jnp.exp(x)
 
 
